@@ -215,3 +215,34 @@ Print Assumptions C06_validated_search_complete_at_error.
 Theorem C06_search_complete_needs_cost_bound : search_complete_needs_cost_bound_stmt.
 Proof. exact search_complete_needs_cost_bound. Qed.
 Print Assumptions C06_search_complete_needs_cost_bound.
+
+(* the look-ahead cap of the ranking (rank_cnds; /repo 00915cc): the repaired ranking keeps exactly the candidates whose capped distance is maximal; the pinned one is refuted *)
+From GV Require Import C06.RankCapSpec C06.RankCapProofs.
+
+Theorem C06_parse_below_within : parse_below_within_stmt.
+Proof. exact parse_below_within. Qed.
+Print Assumptions C06_parse_below_within.
+
+Theorem C06_cap_dist_is_capped_distance : cap_dist_is_capped_distance_stmt.
+Proof. exact cap_dist_is_capped_distance. Qed.
+Print Assumptions C06_cap_dist_is_capped_distance.
+
+Theorem C06_far_is_capped_distance : far_is_capped_distance_stmt.
+Proof. exact far_is_capped_distance. Qed.
+Print Assumptions C06_far_is_capped_distance.
+
+Theorem C06_rank_fixed_spec : rank_fixed_spec_stmt.
+Proof. exact rank_fixed_spec. Qed.
+Print Assumptions C06_rank_fixed_spec.
+
+Theorem C06_search_mirror_keeps : search_mirror_keeps_stmt.
+Proof. exact search_mirror_keeps. Qed.
+Print Assumptions C06_search_mirror_keeps.
+
+Theorem C06_rank_cap_refuted_orig : rank_cap_refuted_orig_stmt.
+Proof. exact rank_cap_refuted_orig. Qed.
+Print Assumptions C06_rank_cap_refuted_orig.
+
+Theorem C06_reference_orig_uncapped : reference_orig_uncapped_stmt.
+Proof. exact reference_orig_uncapped. Qed.
+Print Assumptions C06_reference_orig_uncapped.
